@@ -291,11 +291,13 @@ class WKCResource(Resource):
                     # Taken from the link's attribute list rather than
                     # through getattr, which also finds what the name means
                     # on the Python object (__module__, attr_pairs, to_py...)
+                    # (an attribute without a value, like obs, is there all
+                    # the same: "?obs=*" asks for just that)
                     k_lower = k.lower()
                     return [
-                        value
+                        value if value is not None else ""
                         for (key, value) in link.attr_pairs
-                        if key.lower() == k_lower and value is not None
+                        if key.lower() == k_lower
                     ]
 
                 filters.append(
